@@ -1108,6 +1108,8 @@ func (c *Ctx) checkGuardNamed(s *State, in ssa.Instruction, gf guardedField, bas
 			return
 		}
 	}
+	// a race on state a function relies on compromises every property that function carries
+	gprops := append([]string{"C19"}, c.props...)
 	pos := posOf(c.eng.prog, in)
 	fk := fnKey(in.Parent())
 	ord := c.ordinal("guard", in)
@@ -1125,23 +1127,35 @@ func (c *Ctx) checkGuardNamed(s *State, in ssa.Instruction, gf guardedField, bas
 		}
 		// an object that is still private to the allocating function needs no lock
 		if c.isFreshLocal(s, base) {
-			c.oblige(s, "guard", name, True, pos, "access to freshly allocated (unshared) object", []string{"C19"})
+			c.oblige(s, "guard", name, True, pos, "access to freshly allocated (unshared) object", gprops)
 			return
 		}
 		mode := "read"
 		if write {
 			mode = "write"
 		}
-		c.oblige(s, "guard", name, Or(alts...), pos, fmt.Sprintf("%s of %s requires %s held%s", mode, gf.key, gf.mutex, map[bool]string{true: " exclusively", false: ""}[write]), []string{"C19"})
+		c.oblige(s, "guard", name, Or(alts...), pos, fmt.Sprintf("%s of %s requires %s held%s", mode, gf.key, gf.mutex, map[bool]string{true: " exclusively", false: ""}[write]), gprops)
+	case "under":
+		ok := c.isFreshLocal(s, base)
+		for _, l := range s.locks {
+			if l.Key == gf.mutex && (l.Write || !write) {
+				ok = true
+			}
+		}
+		mode := "read"
+		if write {
+			mode = "write"
+		}
+		c.oblige(s, "guard", name, BoolLit(ok), pos, fmt.Sprintf("%s of %s requires the owner's %s held%s", mode, gf.key, gf.mutex, map[bool]string{true: " exclusively", false: ""}[write]), gprops)
 	case "immutable":
 		if write {
-			c.oblige(s, "guard", name, BoolLit(c.isFreshLocal(s, base)), pos, "write to immutable-after-construction field "+gf.key+" outside its constructor", []string{"C19"})
+			c.oblige(s, "guard", name, BoolLit(c.isFreshLocal(s, base)), pos, "write to immutable-after-construction field "+gf.key+" outside its constructor", gprops)
 		} else {
-			c.oblige(s, "guard", name, True, pos, "read of immutable field", []string{"C19"})
+			c.oblige(s, "guard", name, True, pos, "read of immutable field", gprops)
 		}
 	case "confined", "init-before-spawn":
 		// accepted on declaration; listed as an assumption in the evidence
-		c.oblige(s, "guard", name, True, pos, "field declared "+gf.class, []string{"C19"})
+		c.oblige(s, "guard", name, True, pos, "field declared "+gf.class, gprops)
 	}
 }
 
